@@ -256,7 +256,7 @@ theorem fit_aux (p P vr Q : ℕ) (hp : p < P) (hr : vr + 1 ≤ Q) : p + P * vr <
   rw [Nat.mul_add, Nat.mul_one] at h1
   omega
 
-set_option maxHeartbeats 4000000 in
+set_option maxHeartbeats 1000000 in
 /-- `addmul`: `lhs += a*b` modulo `B^|lhs|`, flag exactly when the true sum does not fit. -/
 theorem addmul_spec (hW : 2 ≤ B) (lhs a b : List ℕ) (hl : AllLtB B lhs) :
     valB B (addmul B lhs a b).1 = (valB B lhs + valB B a * valB B b) % B ^ lhs.length
